@@ -1,10 +1,527 @@
+// vcheck: decides the go-dcp properties by exhaustive exploration of the real (instrumented) code.
+//
+//	vcheck check <property> <quick|thorough>     master: runs every scenario of the property, writes evidence
+//	vcheck worker ...                            one shard of one scenario (spawned by the master)
+//	vcheck replay <file>                         re-executes a recorded violation 5x with labels
 package main
 
 import (
+	"bytes"
+	"encoding/json"
+	"flag"
 	"fmt"
+	"os"
+	"os/exec"
+	"path/filepath"
+	"runtime"
+	"sort"
+	"strconv"
+	"strings"
+	"sync"
+	"time"
 
-	_ "github.com/Trendyol/go-dcp"
-	"github.com/couchbase/gocbcore/v10"
+	"verif/vrt"
 )
 
-func main() { fmt.Println(gocbcore.NewSimCluster(1, 2, 0) != nil) }
+// Instance is one closed scenario instance (a named scenario with parameters).
+type Instance struct {
+	Scenario string          `json:"scenario"`
+	Params   json.RawMessage `json:"params"`
+	Bound    int             `json:"bound"`
+	Shards   int             `json:"shards"`   // worker processes for this instance (default 1)
+	Seconds  int             `json:"seconds"`  // per-worker time budget (0 = tier default)
+	MaxExec  int64           `json:"max_exec"` // per-worker execution cap (0 = none)
+	Note     string          `json:"note,omitempty"`
+}
+
+// ScenarioFactory builds the runnable scenario from parameters.
+type ScenarioFactory func(params json.RawMessage) *vrt.Scenario
+
+var scenarios = map[string]ScenarioFactory{}
+
+// Property describes how one property is decided.
+type Property struct {
+	ID        string
+	Technique string
+	Rule      string
+	Assume    []string
+	// Instances enumerates the scenario instances of a tier.
+	Instances func(tier string) []Instance
+	// Pure runs scheduler-free exhaustive enumerations (E3); returns stats.
+	Pure func(tier string) *PureResult
+}
+
+// PureResult is the outcome of a scheduler-free exhaustive enumeration.
+type PureResult struct {
+	Evaluations int64
+	Distinct    int64
+	States      int64
+	Transitions int64
+	Samples     []any
+	Violations  []vrt.Violation
+	Exhaustive  bool
+	Notes       []string
+}
+
+var properties = map[string]*Property{}
+
+func register(p *Property) { properties[p.ID] = p }
+
+func mustJSON(v any) json.RawMessage {
+	b, err := json.Marshal(v)
+	if err != nil {
+		panic(err)
+	}
+	return b
+}
+
+func main() {
+	if len(os.Args) < 2 {
+		fmt.Fprintln(os.Stderr, "usage: vcheck check|worker|replay|list ...")
+		os.Exit(2)
+	}
+	switch os.Args[1] {
+	case "check":
+		os.Exit(cmdCheck(os.Args[2:]))
+	case "worker":
+		os.Exit(cmdWorker(os.Args[2:]))
+	case "replay":
+		os.Exit(cmdReplay(os.Args[2:]))
+	case "list":
+		ids := []string{}
+		for id := range properties {
+			ids = append(ids, id)
+		}
+		sort.Strings(ids)
+		fmt.Println(strings.Join(ids, " "))
+	default:
+		fmt.Fprintln(os.Stderr, "unknown command", os.Args[1])
+		os.Exit(2)
+	}
+}
+
+// ---- worker ---------------------------------------------------------------------------------------------
+
+func cmdWorker(args []string) int {
+	fs := flag.NewFlagSet("worker", flag.ExitOnError)
+	inst := fs.String("instance", "", "instance JSON")
+	shard := fs.Int("shard", 0, "")
+	shards := fs.Int("shards", 1, "")
+	seconds := fs.Int("seconds", 60, "")
+	_ = fs.Parse(args)
+	var in Instance
+	if err := json.Unmarshal([]byte(*inst), &in); err != nil {
+		fmt.Fprintln(os.Stderr, "bad instance:", err)
+		return 2
+	}
+	f, ok := scenarios[in.Scenario]
+	if !ok {
+		fmt.Fprintln(os.Stderr, "unknown scenario", in.Scenario)
+		return 2
+	}
+	runtime.GOMAXPROCS(2)
+	sc := f(in.Params)
+	sc.Bound = in.Bound
+	e := &vrt.Explorer{Sc: sc, Shard: *shard, Shards: *shards, MaxExec: in.MaxExec}
+	if *seconds > 0 {
+		e.Deadline = time.Now().Add(time.Duration(*seconds) * time.Second)
+	}
+	st := e.Explore()
+	out, _ := json.Marshal(st)
+	os.Stdout.Write(out)
+	return 0
+}
+
+// ---- replay ---------------------------------------------------------------------------------------------
+
+// ReplayFile is a self-contained violation artefact.
+type ReplayFile struct {
+	Property  string        `json:"property"`
+	Instance  Instance      `json:"instance"`
+	Violation vrt.Violation `json:"violation"`
+	Pure      bool          `json:"pure,omitempty"`
+}
+
+func cmdReplay(args []string) int {
+	if len(args) < 1 {
+		fmt.Fprintln(os.Stderr, "usage: vcheck replay <file>")
+		return 2
+	}
+	b, err := os.ReadFile(args[0])
+	if err != nil {
+		fmt.Fprintln(os.Stderr, err)
+		return 2
+	}
+	var rf ReplayFile
+	if err := json.Unmarshal(b, &rf); err != nil {
+		fmt.Fprintln(os.Stderr, err)
+		return 2
+	}
+	if rf.Pure {
+		fmt.Printf("pure-enumeration violation of %s:\n", rf.Property)
+		for _, m := range rf.Violation.Messages {
+			fmt.Println("  ", m)
+		}
+		fmt.Println("re-run: bin/check", rf.Property, "quick")
+		return 1
+	}
+	f, ok := scenarios[rf.Instance.Scenario]
+	if !ok {
+		fmt.Fprintln(os.Stderr, "unknown scenario", rf.Instance.Scenario)
+		return 2
+	}
+	verbose = true
+	var first string
+	reproduced := 0
+	for i := 0; i < 5; i++ {
+		sc := f(rf.Instance.Params)
+		sc.Bound = rf.Instance.Bound
+		e := &vrt.Explorer{Sc: sc}
+		r := e.RunOnce(rf.Violation.Choices, true)
+		msgs := e.Check(r)
+		obs := fmt.Sprintf("%s|%v|%v", r.Status, msgs, r.Log)
+		if i == 0 {
+			first = obs
+			fmt.Printf("status=%s outcome=%s\n", r.Status, r.Outcome)
+			for _, p := range r.Trace {
+				if p.Chosen != 0 {
+					fmt.Printf("  deviation: alt %d of %d at %s\n", p.Chosen, p.N, p.Label)
+				}
+			}
+			for _, l := range r.Log {
+				fmt.Println("  log:", l)
+			}
+			if r.Crash != nil {
+				fmt.Printf("  crash in %s: %s\n%s\n", r.Crash.Thread, r.Crash.Value, r.Crash.Stack)
+			}
+			for _, bl := range r.Blocked {
+				fmt.Println("  blocked:", bl)
+			}
+			for _, m := range msgs {
+				fmt.Println("  VIOLATED:", m)
+			}
+		} else if obs != first {
+			fmt.Fprintln(os.Stderr, "replay diverged between runs (engine error)")
+			return 2
+		}
+		if len(msgs) > 0 {
+			reproduced++
+		}
+	}
+	fmt.Printf("reproduced %d/5\n", reproduced)
+	if reproduced == 5 {
+		return 1
+	}
+	return 0
+}
+
+// ---- master ---------------------------------------------------------------------------------------------
+
+type knownFinding struct {
+	Property   string `json:"property"`
+	Match      string `json:"match"`       // substring every oracle message of the violation must contain
+	ExecStatus string `json:"exec_status"` // execution status of the failing run (ok, deadlock, crash)
+	CrashMatch string `json:"crash_match,omitempty"`
+	What       string `json:"what"`
+	Status     string `json:"status"` // "known" or "fixed" (fixed entries suppress nothing)
+}
+
+// knownMatch returns the finding that explains v completely (every message), or nil.
+func knownMatch(known []knownFinding, id string, v *vrt.Violation) *knownFinding {
+	var hit *knownFinding
+	for _, m := range v.Messages {
+		found := false
+		for i := range known {
+			k := &known[i]
+			if k.Status != "known" || k.Property != id || k.Match == "" {
+				continue
+			}
+			st := k.ExecStatus
+			if st == "" {
+				st = "ok"
+			}
+			if st != v.Status || !strings.Contains(m, k.Match) {
+				continue
+			}
+			if k.CrashMatch != "" && (v.Crash == nil || !strings.Contains(v.Crash.Value+v.Crash.Stack, k.CrashMatch)) {
+				continue
+			}
+			found = true
+			hit = k
+		}
+		if !found {
+			return nil
+		}
+	}
+	return hit
+}
+
+func loadKnown() []knownFinding {
+	b, err := os.ReadFile(filepath.Join(verifDir(), "known_findings.json"))
+	if err != nil {
+		return nil
+	}
+	var out struct {
+		Findings []knownFinding `json:"findings"`
+	}
+	if err := json.Unmarshal(b, &out); err != nil {
+		fmt.Fprintln(os.Stderr, "known_findings.json:", err)
+		os.Exit(2)
+	}
+	return out.Findings
+}
+
+func verifDir() string {
+	if d := os.Getenv("VERIF_DIR"); d != "" {
+		return d
+	}
+	return "/verif"
+}
+
+type job struct {
+	inst  Instance
+	shard int
+	stats *vrt.Stats
+	err   error
+}
+
+func cmdCheck(args []string) int {
+	if len(args) < 2 {
+		fmt.Fprintln(os.Stderr, "usage: vcheck check <property> <quick|thorough>")
+		return 2
+	}
+	id, tier := args[0], args[1]
+	p, ok := properties[id]
+	if !ok {
+		fmt.Fprintln(os.Stderr, "unknown property", id)
+		return 2
+	}
+	start := time.Now()
+	seed := 0
+	if s := os.Getenv("VERIF_SEED"); s != "" {
+		seed, _ = strconv.Atoi(s)
+	}
+	total := vrt.NewStats()
+	var perInstance []map[string]any
+	engineErr := false
+
+	if p.Instances != nil {
+		insts := p.Instances(tier)
+		defSeconds := 90
+		if tier == "thorough" {
+			defSeconds = 900
+		}
+		var jobs []*job
+		for _, in := range insts {
+			if in.Shards <= 0 {
+				in.Shards = 1
+			}
+			if in.Seconds == 0 {
+				in.Seconds = defSeconds
+			}
+			for s := 0; s < in.Shards; s++ {
+				jobs = append(jobs, &job{inst: in, shard: s})
+			}
+		}
+		par := runtime.NumCPU()
+		if par > 16 {
+			par = 16
+		}
+		sem := make(chan struct{}, par)
+		var wg sync.WaitGroup
+		self, _ := os.Executable()
+		for _, j := range jobs {
+			wg.Add(1)
+			sem <- struct{}{}
+			go func(j *job) {
+				defer wg.Done()
+				defer func() { <-sem }()
+				ib, _ := json.Marshal(j.inst)
+				cmd := exec.Command(self, "worker", "-instance", string(ib), "-shard", strconv.Itoa(j.shard),
+					"-shards", strconv.Itoa(j.inst.Shards), "-seconds", strconv.Itoa(j.inst.Seconds))
+				cmd.Env = append(os.Environ(), "GOMAXPROCS=2")
+				var out, errb bytes.Buffer
+				cmd.Stdout, cmd.Stderr = &out, &errb
+				if err := cmd.Run(); err != nil {
+					j.err = fmt.Errorf("%v: %s", err, tail(errb.String(), 2000))
+					return
+				}
+				st := vrt.NewStats()
+				if err := json.Unmarshal(out.Bytes(), st); err != nil {
+					j.err = fmt.Errorf("worker output: %v: %s", err, tail(out.String(), 500))
+					return
+				}
+				j.stats = st
+			}(j)
+		}
+		wg.Wait()
+		// merge per instance
+		byInst := map[string]*vrt.Stats{}
+		order := []string{}
+		instOf := map[string]Instance{}
+		for _, j := range jobs {
+			key := j.inst.Scenario + "|" + string(j.inst.Params) + "|" + strconv.Itoa(j.inst.Bound)
+			if j.err != nil {
+				fmt.Fprintf(os.Stderr, "ENGINE ERROR in %s shard %d: %v\n", j.inst.Scenario, j.shard, j.err)
+				engineErr = true
+				continue
+			}
+			if _, ok := byInst[key]; !ok {
+				byInst[key] = vrt.NewStats()
+				order = append(order, key)
+				instOf[key] = j.inst
+			}
+			byInst[key].Merge(j.stats)
+		}
+		for _, key := range order {
+			st := byInst[key]
+			in := instOf[key]
+			// violations carry their instance for replay
+			for i := range st.Violations {
+				st.Violations[i].Scenario = in.Scenario
+			}
+			perInstance = append(perInstance, map[string]any{
+				"scenario": in.Scenario, "params": in.Params, "bound": in.Bound, "note": in.Note,
+				"executions": st.Executions, "points": st.Points, "distinct_outcomes": len(st.Outcomes),
+				"status_count": st.StatusCount, "exhaustive": st.Exhaustive, "cap_hit": st.CapHit,
+				"max_points_per_execution": st.MaxPoints, "violations": st.ViolCount,
+			})
+			writeViolations(id, in, st, false)
+			total.Merge(st)
+		}
+	}
+
+	var pure *PureResult
+	if p.Pure != nil {
+		pure = p.Pure(tier)
+		if !pure.Exhaustive {
+			total.Exhaustive = false
+		}
+		st := vrt.NewStats()
+		st.Violations = pure.Violations
+		st.ViolCount = int64(len(pure.Violations))
+		writeViolations(id, Instance{Scenario: "pure"}, st, true)
+		total.ViolCount += st.ViolCount
+		total.Violations = append(total.Violations, pure.Violations...)
+	}
+
+	// classify violations against the known-findings file
+	known := loadKnown()
+	newViol := 0
+	seenKnown := map[string]bool{}
+	for _, v := range allViolations {
+		isKnown := false
+		if k := knownMatch(known, id, &v.v); k != nil {
+			isKnown = true
+			if !seenKnown[k.What] {
+				seenKnown[k.What] = true
+				fmt.Printf("KNOWN-FINDING: property=%s %s\n", id, k.What)
+			}
+		}
+		if !isKnown {
+			newViol++
+			fmt.Printf("VIOLATION property=%s replay=%s\n", id, v.path)
+			for _, m := range v.v.Messages {
+				fmt.Printf("  %s\n", m)
+			}
+		}
+	}
+
+	// evidence
+	cov := map[string]any{}
+	distinct := int64(len(total.Outcomes))
+	evals := total.Executions
+	states := int64(len(total.Outcomes))
+	trans := total.Points + total.Executions
+	var samples []any
+	for _, s := range total.Samples {
+		samples = append(samples, s)
+	}
+	if pure != nil {
+		evals += pure.Evaluations
+		distinct += pure.Distinct
+		states += pure.States
+		trans += pure.Transitions
+		samples = append(samples, pure.Samples...)
+		cov["pure_notes"] = pure.Notes
+	}
+	if len(samples) == 0 {
+		samples = append(samples, "none")
+	}
+	cov["evaluations"] = evals
+	cov["distinct_nontrivial"] = distinct
+	cov["states"] = states
+	cov["transitions"] = trans
+	cov["traces_validated_against_impl"] = total.Executions
+	cov["rule"] = p.Rule
+	cov["samples"] = samples
+	cov["exhaustive"] = total.Exhaustive && !engineErr
+	cov["cap_hit"] = total.CapHit
+	cov["executions"] = total.Executions
+	cov["scheduling_points"] = total.Points
+	cov["distinct_outcomes"] = len(total.Outcomes)
+	cov["status_count"] = total.StatusCount
+	cov["instances"] = perInstance
+	cov["technique"] = p.Technique
+	ev := map[string]any{
+		"property_id": id, "tier": tier, "seed": seed, "level": "model_checking",
+		"coverage": cov, "assumptions": p.Assume, "wall_s": time.Since(start).Seconds(),
+		"violations": newViol,
+	}
+	eb, _ := json.MarshalIndent(ev, "", " ")
+	_ = os.MkdirAll(filepath.Join(verifDir(), "evidence"), 0o755)
+	if err := os.WriteFile(filepath.Join(verifDir(), "evidence", id+".json"), eb, 0o644); err != nil {
+		fmt.Fprintln(os.Stderr, err)
+		return 2
+	}
+	fmt.Printf("%s %s: executions=%d points=%d outcomes=%d pure_evals=%d exhaustive=%v violations=%d wall=%.1fs\n",
+		id, tier, total.Executions, total.Points, len(total.Outcomes), evals-total.Executions, cov["exhaustive"], newViol, time.Since(start).Seconds())
+	if engineErr {
+		return 2
+	}
+	if newViol > 0 {
+		return 1
+	}
+	return 0
+}
+
+type recordedViolation struct {
+	v    vrt.Violation
+	path string
+}
+
+var allViolations []recordedViolation
+
+func writeViolations(id string, in Instance, st *vrt.Stats, pure bool) {
+	seen := map[string]bool{}
+	for _, v := range st.Violations {
+		if seen[v.Key] {
+			continue // one artefact per fingerprint and instance
+		}
+		seen[v.Key] = true
+		rf := ReplayFile{Property: id, Instance: in, Violation: v, Pure: pure}
+		b, _ := json.MarshalIndent(rf, "", " ")
+		h := vrtHash(string(b))
+		dir := filepath.Join(verifDir(), "replays")
+		_ = os.MkdirAll(dir, 0o755)
+		path := filepath.Join(dir, fmt.Sprintf("%s-%s.json", id, h))
+		_ = os.WriteFile(path, b, 0o644)
+		allViolations = append(allViolations, recordedViolation{v: v, path: path})
+	}
+}
+
+func vrtHash(s string) string {
+	var h uint64 = 1469598103934665603
+	for i := 0; i < len(s); i++ {
+		h ^= uint64(s[i])
+		h *= 1099511628211
+	}
+	return strconv.FormatUint(h, 16)
+}
+
+func tail(s string, n int) string {
+	if len(s) > n {
+		return s[len(s)-n:]
+	}
+	return s
+}
